@@ -317,10 +317,13 @@ def apply_tok(obj, t: int, nested_only: bool = False):
         if name in ('AlertConditionDescriptorContainer', 'LimitAlertConditionDescriptorContainer'):
             # an INDEXED list attribute (descriptions.source), changed in place like an application may do it
             src = ('numeric.ch0.vmd0', 'string.ch0.vmd0', 'rtsa.ch0.vmd0')[t % 3]
-            del obj.Source[:]
-            obj.Source.append(src)
-            if t % 2:
-                obj.Source.append(src)      # the same source named twice (pm:Source has no uniqueness constraint)
+            if t % 3 == 2 and obj.Source and src not in obj.Source:
+                obj.Source.append(src)          # the condition only GAINS a source (no indexed key goes away)
+            else:
+                del obj.Source[:]
+                obj.Source.append(src)
+                if t % 2:
+                    obj.Source.append(src)      # the same source named twice (pm:Source has no uniqueness constraint)
         elif name == 'AlertSignalDescriptorContainer':
             obj.ConditionSignaled = ('ac0.vmd0.mds0', 'ac1.vmd0.mds0')[t % 2]   # indexed (descriptions.condition_signaled)
     else:
